@@ -8,6 +8,6 @@ CONSTANTS
   Alphabet = {97, 49, 45, 20320, 769, 27, 91, 109, 32}
   MaxLen = 5
   Limits = {0, 1, 2, 3, 4, 999999999}
-  Splitters = {"none", "hyphen", "every2"}
+  Splitters = {"none", "hyphen", "every2", "half"}
 INVARIANTS BreakInv SplitInv SplitRefines PropBreak PropSplit Emit
 CHECK_DEADLOCK FALSE
